@@ -1646,7 +1646,30 @@ pub fn run(o: &Opts, rec: &mut Recorder) {
         return;
     }
     let mut r = Rng::new(o.seed);
-    let blocks = o.n(150, 6000);
+    // small-scope enumeration of the two flag octets of the header (QR, opcode, AA, TC, RD | RA, Z,
+    // AD, CD, rcode) over a fixed question: quick = every value of each octet, thorough = all 65536
+    {
+        let zones = vec![ZSpec { origin: name("example.com."), handlers: vec![HSpec::Mem { axfr: false }] }];
+        run.exec(&format!("begin {} - -", zones_tok(&zones)), rec);
+        let q: Vec<u8> = [wire_name(&labels_of(&name("www.example.com."))), vec![0, 6, 0, 1]].concat();
+        let mut one = |b2: u8, b3: u8, run: &mut Runner, rec: &mut Recorder| {
+            let mut m = header(0xBEEF, b2, b3, 1, 0, 0, 0);
+            m.extend(&q);
+            run.exec(&format!("req u 4:134744072 {} ? ? ?", hex(&m)), rec);
+        };
+        if o.thorough() {
+            for v in 0..=0xFFFFu16 {
+                one((v >> 8) as u8, v as u8, &mut run, rec);
+            }
+        } else {
+            for v in 0..=0xFFu8 {
+                one(v, r.byte(), &mut run, rec);
+                one(r.byte() & 0x7F, v, &mut run, rec);
+            }
+        }
+        run.exec("end", rec);
+    }
+    let blocks = o.n(500, 15000);
     let per_block = 30;
     let hand = hand_configs();
     let mut i = 0usize;
